@@ -60,7 +60,25 @@ public:
             t += " <xs:simpleType name=\"" + s.name + "\"" + fin + ">";
             if (kind == 4 && base.list) kind = 3;      // a list of lists is not allowed
             if (kind == 0 && base.good.size() >= 2 && !base.good[0].empty() && base.name != "xs:boolean") { t += "<xs:restriction base=\"" + base.name + "\">"; size_t n = 1 + rng.below(base.good.size()); for (size_t k = 0; k < n; k++) { t += "<xs:enumeration value=\"" + esc(base.good[k]) + "\"/>"; s.good.push_back(base.good[k]); } t += "</xs:restriction>"; s.bad = base.bad; s.bad.push_back("notListed"); g.kinds["facet:enumeration"]++; }
-            else if (kind == 1) { const SgSimple& sb = g.simples[rng.below(2)]; t += "<xs:restriction base=\"" + sb.name + "\"><xs:pattern value=\"[a-c]+\"/>" + (rng.coin() ? "<xs:pattern value=\"x\\d{1,3}\"/>" : "") + "</xs:restriction>"; s.good = { "abc", "a", "cab" }; s.bad = { "xyz", "" }; g.kinds["facet:pattern"]++; }
+            else if (kind == 1) { const SgSimple& sb = g.simples[rng.below(2)];
+                // pattern facets over the features of the regular-expression engine: classes, class subtraction, negation, categories and blocks,
+                // \i \c \d \s \w, alternation, (nested) closures whose body can match the empty string, counted repeats
+                struct Pat { const char* re; std::vector<std::string> good, bad; };
+                static const std::vector<Pat> pats = {
+                    { "[a-c]+", { "abc", "a", "cab" }, { "xyz", "" } },
+                    { "[a-z-[bdfhjlnprtvx]]+", { "ace", "gikmoq", "zzz" }, { "b", "abd", "" } },
+                    { "([a-z]?-?)*|x+", { "a-b", "xx", "", "ab--c" }, { "A", "x1" } },
+                    { "\\p{Lu}\\p{Ll}*(\\s\\p{Lu}\\p{Ll}*)?", { "Ab", "Ab Cd", "X" }, { "ab", "AB" } },
+                    { "\\i\\c*", { "a.b", "_x-1", "q" }, { "1a", "" } },
+                    { "(ab|a)(bc|c)?d{2,}", { "abdd", "abcdd", "acdd", "addd" }, { "abd", "dd" } },
+                    { "[^\\d\\s]{2,4}", { "ab", "a-b_" }, { "a1", "a", "abcde" } },
+                    { "(x*)*y", { "y", "xxy" }, { "x", "yy" } },
+                    { "[\\-+]?[0-9]+(\\.[0-9]*)?", { "-1.5", "42", "+7." }, { "1e", ".5" } },
+                    { "[\\w-[aeiou]]+|\\P{IsBasicLatin}+", { "bcd", "xyz9" }, { "a e", "-" } },
+                    { "((a|b)*c|(a|b)*d)+", { "abac", "cd", "bbd" }, { "ab", "e" } },
+                    { "[\\p{L}-[\\p{Lu}]]{1,5}", { "abc", "q" }, { "Abc", "abcdef" } } };
+                const Pat& pt = pats[rng.below(pats.size())];
+                t += "<xs:restriction base=\"" + sb.name + "\"><xs:pattern value=\"" + std::string(pt.re) + "\"/>" + (rng.coin() ? "<xs:pattern value=\"x\\d{1,3}\"/>" : "") + "</xs:restriction>"; s.good = pt.good; s.bad = pt.bad; g.kinds["facet:pattern"]++; }
             else if (kind == 2) { const SgSimple& sb = g.simples[rng.below(2)]; int lo = rng.range(0, 2), hi = lo + rng.range(1, 4); t += "<xs:restriction base=\"" + sb.name + "\">" + (rng.chance(1, 3) ? "<xs:length value=\"" + std::to_string(hi) + "\"/>" : "<xs:minLength value=\"" + std::to_string(lo) + "\"/><xs:maxLength value=\"" + std::to_string(hi) + "\"/>") + (rng.chance(1, 3) ? "<xs:whiteSpace value=\"collapse\"/>" : "") + "</xs:restriction>"; s.good = { std::string((size_t)hi, 'k') }; s.bad = { std::string((size_t)hi + 3, 'k') }; g.kinds["facet:length"]++; }
             else if (kind == 3) { bool dec = rng.coin(); t += std::string("<xs:restriction base=\"") + (dec ? "xs:decimal" : "xs:integer") + "\">" + (rng.coin() ? "<xs:minInclusive value=\"0\"/><xs:maxInclusive value=\"100\"/>" : "<xs:minExclusive value=\"-1\"/><xs:maxExclusive value=\"1000\"/>") + (rng.chance(1, 3) ? "<xs:totalDigits value=\"3\"/>" : "") + (dec && rng.chance(1, 2) ? "<xs:fractionDigits value=\"1\"/>" : "") + "</xs:restriction>"; s.good = { "5", "42", "100" }; s.bad = { "-7", "123456", "x" }; if (dec) s.good.push_back("1.5"); g.kinds["facet:range"]++; }
             else if (kind == 4) { t += "<xs:list itemType=\"" + base.name + "\"/>"; s.good = { pick(base.good) + " " + pick(base.good), pick(base.good) }; s.bad = base.bad; s.list = true; g.kinds["list"]++; }
@@ -135,6 +153,8 @@ public:
             else s += "/>\n";
             t += s; g.elems.push_back(e); g.kinds["global-element"]++;
         }
+        // one global element per user-defined simple type (vS0, vS1 ...): lets an instance put any value straight under any generated type
+        for (size_t k = g.builtins; k < g.simples.size(); k++) { SgElem e; e.name = "v" + g.simples[k].name.substr(g.simples[k].name.find('S')); e.type = (int)k; t += " <xs:element name=\"" + e.name + "\" type=\"" + g.simples[k].name + "\"/>\n"; g.elems.push_back(e); }
         t += "</xs:schema>\n";
         if (rng.chance(1, 40)) { size_t at = rng.below(t.size()); t.erase(at, 1 + rng.below(4)); g.kinds["schema-damaged"]++; }      // now and then a schema that does not load cleanly
         return g;
